@@ -18,7 +18,7 @@
 //!      single-op references differ on that input.
 mod userops;
 use crate::common::{catch, stable_msg, Report};
-use userops::{VFold, VNamedMain, VNest, VTwoAux};
+use userops::{VFold, VNamedMain, VNest, VPick, VTwoAux};
 use crate::exec::{first_line, seed_bytes};
 use crate::vals::{arr_value, build_value, num_elems, show, st_signed};
 use ciphercore_base::custom_ops::{run_instantiation_pass, CustomOperation, Not, Or};
@@ -333,6 +333,10 @@ fn alphabet() -> Vec<Member> {
         }
         for depth in [0u64, 1, 3] {
             addu("VNest", format!("depth={}", depth), CustomOperation::new(VNest { depth }), un_bits.clone());
+        }
+        for late in [false, true] {
+            let sigs: Vec<Vec<Type>> = un_bits.iter().map(|s| vec![s[0].clone(), s[0].clone()]).collect();
+            addu("VPick", format!("late={}", late), CustomOperation::new(VPick { late }), sigs);
         }
         for swap in [false, true] {
             addu("VTwoAux", format!("swap={}", swap), CustomOperation::new(VTwoAux { swap }), un_bits.clone());
